@@ -5,3 +5,4 @@ pub mod c17;
 pub mod c10;
 pub mod c12;
 pub mod c03;
+pub mod c04;
